@@ -2633,6 +2633,68 @@ theorem c15_full_fails_nil_unsafe : ¬ C15_full .nilUnsafe := by
   rw [c15_old_nil_stop_channel_crashes_client_leaves.1] at this
   cases this
 
+/-! ### the client's read options are per read -/
+
+/-- a read without deadline on a live connection never times out, whatever reads came before it:
+with a frame there it returns that frame, otherwise it waits -/
+theorem c15_client_plain_read_never_times_out (c : CConn) (hd : c.dead = false) :
+    (cRead false c none).2 ≠ .timedOut ∧ (cRead false c none).2 ≠ .failed ∧ (cRead false c none).1.dead = false ∧
+    (cRead false c none).1.deadline = none ∧
+    (∀ f rest, c.inbox = f :: rest → cRead false c none = ({ c with deadline := none, inbox := rest }, .frame f)) := by
+  simp only [cRead, hd, Bool.false_eq_true, if_false]
+  cases hi : c.inbox with
+  | nil => simp [hd]
+  | cons f rest => simp [hd]
+
+/-- **a deadline belongs to the read it was given to** (seed C15r6-B): for every history of arriving
+frames, passing time and reads with or without deadlines, the connection dies only by a read that ran
+into *its own* deadline — when no read of the history reports `timedOut`, the connection is alive at
+the end and no read reports `failed`. -/
+theorem c15_client_deadline_is_per_read (hist : List CAct) (c : CConn) (hd : c.dead = false)
+    (hno : ROut.timedOut ∉ (cRun false c hist).2) :
+    (cRun false c hist).1.dead = false ∧ ROut.failed ∉ (cRun false c hist).2 := by
+  induction hist generalizing c with
+  | nil => simp [cRun, hd]
+  | cons a as ih =>
+    simp only [cRun, List.mem_append, not_or] at hno ⊢
+    obtain ⟨h1, h2⟩ := hno
+    have key : (cStep false c a).1.dead = false ∧ ROut.failed ∉ (cStep false c a).2 := by
+      cases a with
+      | tick d => simp [cStep, hd]
+      | arrive f => simp [cStep, hd]
+      | read dl =>
+        simp only [cStep, List.mem_singleton] at h1 ⊢
+        simp only [cRead, hd, Bool.false_eq_true, if_false] at h1 ⊢
+        cases dl with
+        | none => cases hi : c.inbox <;> simp [hd]
+        | some r =>
+          simp only at h1 ⊢
+          by_cases ht : c.now + r ≤ c.now
+          · simp [ht] at h1
+          · cases hi : c.inbox <;> simp [ht, hd]
+    obtain ⟨k1, k2⟩ := key
+    obtain ⟨i1, i2⟩ := ih (cStep false c a).1 k1 h2
+    exact ⟨i1, k2, i2⟩
+
+/-- a read with a positive deadline and a frame already there returns the frame (so the histories
+of `c15_client_deadline_is_per_read` exist: the correspondence run only issues such reads) -/
+theorem c15_client_read_with_frame (c : CConn) (hd : c.dead = false) (f : Frame) (rest : List Frame)
+    (hi : c.inbox = f :: rest) (r : Nat) (hr : 0 < r) :
+    cRead false c (some r) = ({ c with deadline := some (c.now + r), inbox := rest }, .frame f) := by
+  have : ¬ c.now + r ≤ c.now := by omega
+  simp [cRead, hd, hi, this]
+
+/-- … and the variant that leaves the deadline of an earlier read armed does not have the property:
+a read with a deadline of 5 that succeeds, a quiet period of 10, a frame, a plain read — the stale
+deadline fires, the read fails for good, the frames that follow and the normal close never reach
+the caller; the code as it is delivers all of them -/
+theorem c15_client_sticky_deadline_kills_stream :
+    let hist : List CAct := [.arrive (.data 0 1), .read (some 5), .tick 10, .arrive (.data 0 2), .read none,
+      .arrive .closeNormal, .read none]
+    (cRun true {} hist).2 = [.frame (.data 0 1), .timedOut, .failed] ∧ (cRun true {} hist).1.dead = true ∧
+    (cRun false {} hist).2 = [.frame (.data 0 1), .frame (.data 0 2), .frame .closeNormal] ∧
+    (cRun false {} hist).1.dead = false := by decide
+
 /-! ### several connections on one server: other clients are unaffected -/
 
 theorem run_cons_none {v : Variant} {caps : Caps} {s : St} {a : Act} (as : List Act) (h : step v caps s a = none) :
